@@ -1,3 +1,4 @@
+\* every assignment of content flags as well
 \* the code as it is (views repaired, word count per text node): the views agree, the count exceeds by the joints
 \* every document <= 4 nodes x every assignment of tight edges; the code as it is for the views, the word count as it should be
 CONSTANTS
@@ -14,7 +15,7 @@ CONSTANTS
  InnerForNestRoots = TRUE
  PadsEveryTextNode = FALSE
  CountsPerTextNode = TRUE
- AllFlagAssignments = FALSE
+ AllFlagAssignments = TRUE
  SeparatesRunningText = TRUE
 SPECIFICATION MSpec
 INVARIANTS Inv_ViewsAgree Inv_CountExceedsByJoints
